@@ -10,8 +10,12 @@ without yielding (msg_mutator dropping messages; plan_mutator popping/pushing ge
 Modelling choices (all stated in ASSUMPTIONS of harness/props/C20.py, C21.py):
 * `msg_proc` is a total function that does not raise;
 * the generators returned by plan_mutator's `msg_proc` are fresh generator objects; every
-  generator object gets a unique id that is never reused (CPython may reuse `id()` of a collected
-  object -- the harness keeps the objects alive);
+  generator object gets a unique id that is never reused.  CPython does reuse `id()` of a collected
+  object; plan_mutator's caches are keyed by `id()`, so an entry left behind for a dead generator
+  can be found again by a later one.  The throw branch now removes the entries of the generator it
+  pops (repaired after this check reproduced a stale tail running; harness probe `stale_tail`);
+  the send branch removes the tail_cache entry but not a tail_result_cache entry of a tail that
+  raised (no observable effect could be produced); the harness keeps generators alive;
 * `id(msg)` is `key msg`.
 -/
 import BlueskyVerif.Gen.YieldFrom
@@ -193,6 +197,43 @@ def pmProcess (key : M → ι) (proc : Proc M R V E) (s : PM M ι R V E) (msg : 
                      nextId := s.nextId + 2 }
     | none => .yield msg s
 
+/-- `msg = plan_stack[-1].throw(exception)` gave `res` (lines ~95-137); `(gid, _) :: rest` was the
+    plan stack, `s.exception` is still the thrown exception. -/
+def pmOnThrow (key : M → ι) (proc : Proc M R V E) (s : PM M ι R V E) (gid : Nat)
+    (rest : List (GenObj M R V E)) : Out M V E × Pos M R V E → PMRes M ι R V E
+  | (.ret v, _) => pmExhausted s gid rest v            -- except StopIteration as e
+  | (.raise x, _) =>
+    if caughtBy Generated.pmThrowClauses x then        -- except Exception as e
+      -- failed_gen = plan_stack.pop()
+      -- tail_cache.pop(id(failed_gen), None); tail_result_cache.pop(id(failed_gen), None)
+      -- if plan_stack: exception = e; continue   else: raise
+      if rest.isEmpty then .raise x
+      else .cont { s with planStack := rest, tailCache := dictDel s.tailCache gid,
+                          tailResultCache := dictDel s.tailResultCache gid, exception := some x }
+    else .raise x                                      -- not caught: leaves plan_mutator
+  | (.yld msg, top') =>                                -- else: exception = None
+    pmProcess key proc { s with planStack := (gid, top') :: rest, exception := none } msg
+
+/-- `msg = plan_stack[-1].send(ret)` gave `res` (lines ~139-188); `(gid, _) :: rest` was the plan
+    stack; `ret` has been popped from the result stack (`s.ret`). -/
+def pmOnSend (key : M → ι) (proc : Proc M R V E) (s : PM M ι R V E) (gid : Nat)
+    (rest : List (GenObj M R V E)) : Out M V E × Pos M R V E → PMRes M ι R V E
+  | (.ret v, _) => pmExhausted s gid rest v            -- except StopIteration as e
+  | (.raise x, _) =>
+    if caughtBy Generated.pmSendClauses x then         -- except Exception as ex
+      -- failed_gen = plan_stack.pop()
+      -- if id(failed_gen) in tail_cache: gen = tail_cache.pop(..); if gen is not None: push
+      let (ps, tc) :=
+        match dictGet s.tailCache gid with
+        | some (some g) => (g :: rest, dictDel s.tailCache gid)
+        | some none => (rest, dictDel s.tailCache gid)
+        | none => (rest, s.tailCache)
+      -- if plan_stack: exception = ex; continue   else: raise ex
+      if ps.isEmpty then .raise x
+      else .cont { s with planStack := ps, tailCache := tc, exception := some x }
+    else .raise x
+  | (.yld msg, top') => pmProcess key proc { s with planStack := (gid, top') :: rest } msg
+
 /-- One trip round `while True:` up to the `yield` (lines ~91-209). -/
 def pmIter (key : M → ι) (proc : Proc M R V E) (s : PM M ι R V E) : PMRes M ι R V E :=
   match s.exception with
@@ -200,43 +241,16 @@ def pmIter (key : M → ι) (proc : Proc M R V E) (s : PM M ι R V E) : PMRes M 
     -- msg = plan_stack[-1].throw(exception)
     match s.planStack with
     | [] => .raise PyExc.modelError
-    | (gid, top) :: rest =>
-      match top.resume (.throw exc) with
-      | (.ret v, _) => pmExhausted s gid rest v          -- except StopIteration as e
-      | (.raise x, _) =>
-        if caughtBy Generated.pmThrowClauses x then      -- except Exception as e
-          -- plan_stack.pop(); if plan_stack: exception = e; continue   else: raise
-          if rest.isEmpty then .raise x
-          else .cont { s with planStack := rest, exception := some x }
-        else .raise x                                    -- not caught: leaves plan_mutator
-      | (.yld msg, top') =>                              -- else: exception = None
-        pmProcess key proc { s with planStack := (gid, top') :: rest, exception := none } msg
+    | (gid, top) :: rest => pmOnThrow key proc s gid rest (top.resume (.throw exc))
   | none =>
     -- ret = result_stack.pop();  msg = plan_stack[-1].send(ret)
     match s.resultStack with
     | [] => .raise PyExc.modelError
     | r :: rs =>
-      let s := { s with resultStack := rs, ret := r }
       match s.planStack with
       | [] => .raise PyExc.modelError
       | (gid, top) :: rest =>
-        match top.resume (.send r) with
-        | (.ret v, _) => pmExhausted s gid rest v        -- except StopIteration as e
-        | (.raise x, _) =>
-          if caughtBy Generated.pmSendClauses x then     -- except Exception as ex
-            -- failed_gen = plan_stack.pop()
-            -- if id(failed_gen) in tail_cache: gen = tail_cache.pop(..); if gen is not None: push
-            let (ps, tc) :=
-              match dictGet s.tailCache gid with
-              | some (some g) => (g :: rest, dictDel s.tailCache gid)
-              | some none => (rest, dictDel s.tailCache gid)
-              | none => (rest, s.tailCache)
-            -- if plan_stack: exception = ex; continue   else: raise ex
-            if ps.isEmpty then .raise x
-            else .cont { s with planStack := ps, tailCache := tc, exception := some x }
-          else .raise x
-        | (.yld msg, top') =>
-          pmProcess key proc { s with planStack := (gid, top') :: rest } msg
+        pmOnSend key proc { s with resultStack := rs, ret := r } gid rest (top.resume (.send r))
 
 /-- `for p in plan_stack: p.close()` -- in deque order (bottom first); the first close that raises
     aborts the loop with that exception. -/
